@@ -94,7 +94,10 @@ def analyse(ctx, case, run, S):
             pass
         ctx.D.record('path-implies-spec', name, ans, dt, 'unsat', '(assert %s)' % q)
         if ans != 'unsat':
-            ctx.findings.append(Finding(ctx.pid, 'C15:accepts-outside-spec', '%s: the accepting path does not establish canonicity of every scalar element' % name, cfg, 'codec_mismatch', det))
+            # the solver's counterexample: a scalar element whose canonicity was never asked is non-canonical
+            missing = [p for p in list(range(d)) + [d + 3, d + 4] if ks[p] not in asked]
+            ctx.findings.append(Finding(ctx.pid, 'C15:accepts-outside-spec', '%s: the accepting path does not establish canonicity of scalar element(s) %s' % (name, missing), cfg, 'codec_mismatch',
+                                        {'expect_decode': 'err', 'replay_cfg': dict(cfg, noncanonical=missing[:1])}))
         ctx.expect(o.get('reencode_equal') is True, 'C15:reencode', '%s: to_bytes(from_bytes(b)) != b' % name, cfg, 'codec_mismatch', det)
         ctx.expect(o.get('ext') == tag and o.get('ext_from_bytes') == tag, 'C15:extension-degree', '%s: extension degree accessors disagree with the tag' % name, cfg, 'codec_mismatch', det)
         ctx.expect(o.get('serde_decode') == 'ok' and o.get('serde_equal') and o.get('serde_bytes_equal'), 'C15:serde', '%s: the serde form does not accept/produce the same bytes (%s)' % (name, o.get('serde_decode')),
